@@ -47,17 +47,19 @@ def pinned(rep, prop):
         devs.add("HandlerPanics")
     if "LaunchWithoutConfigPanics" in rep.open:
         devs.add("HandlerPanicPoisons")
+    if "HugeContentLengthAbortsProcess" in rep.open:
+        devs.add("HugeMessageAborts")
     return sorted(devs)
 
 
 def scenarios(rnd, reps):
     out, i = [], 0
     for rep in range(reps):
-        for state in ("none", "idle", "running", "paused", "busy", "launchpause", "notoml", "portbusy"):
+        for state in ("none", "idle", "running", "paused", "busy", "launchpause", "notoml", "portbusy", "hugeheader"):
             for mode in ("shutdown_exit", "close", "shutdown_close", "shutdown_request_exit"):
                 if mode == "shutdown_request_exit" and state not in ("none", "idle", "paused"):
                     continue
-                for order in (("no_dap",) if state in ("none", "portbusy") else ("dap_never",) if state in ("launchpause", "notoml") or mode == "shutdown_request_exit"
+                for order in (("no_dap",) if state in ("none", "portbusy") else ("dap_never",) if state in ("launchpause", "notoml", "hugeheader") or mode == "shutdown_request_exit"
                               else ("dap_never", "dap_drop_first") if state == "busy" else ("dap_never", "dap_first", "dap_between", "dap_drop_first")):
                     if order == "dap_between" and mode == "close":
                         continue
@@ -105,6 +107,13 @@ def run_one(mos, sc, bound):
             r = dap.request("initialize", {"adapterID": "mos", "linesStartAt1": True, "columnsStartAt1": True}, 5)
             if not (r and r.get("success")):
                 obs["setup"] = "DAP initialize failed"
+            if sc["state"] == "hugeheader" and obs["setup"] == "ok":
+                # the client announces a message it never sends
+                try:
+                    dap.sock.sendall(b"Content-Length: 999999999999999\r\n\r\n")
+                except OSError:
+                    pass
+                time.sleep(0.3)
             if sc["state"] in ("launchpause", "notoml") and obs["setup"] == "ok":
                 # a request whose handler may panic: pause between launch and configurationDone; launch without a mos.toml
                 dap.request("launch", {"workspace": d, "testRunner": {"testCaseName": "t"}}, 2)
@@ -214,6 +223,7 @@ def design_level(rep, devs):
                        ("cex_accept", "JoinBlockedInAccept + UnboundedJoin: with the unwrap repaired, Terminates fails (join waits on a thread in accept())"),
                        ("cex_late", "SessionIgnoresFlag + UnboundedJoin: a session registered after the handlers were invoked keeps the process alive"),
                        ("cex_select", "SignalPanicsDebugThread: the debug thread dies on the shutdown signal"),
+                       ("cex_abort", "HugeMessageAborts: a Content-Length header on the debug port aborts the process"),
                        ("cex_deadjoin", "HandlerPanics + DeadThreadFailsJoin: a debug thread that died earlier makes shutdown exit 101"),
                        ("cex_poison", "HandlerPanicPoisons: a handler panic under the context lock takes the main thread down at its next message"),
                        ("cex_handler", "HandlerPanics: a DAP request can kill the debug thread"),
